@@ -33,7 +33,7 @@
 EXTENDS Naturals, Sequences, FiniteSets, TLC
 
 CONSTANTS
-    Part,       \* "priv" | "pub" | "scanpriv" | "scanpub" | "chain" | "layout"
+    Part,       \* "priv" | "pub" | "scanpriv" | "scanpub" | "chain" | "layout" | "keylist"
     Variant,    \* "code" = faithful model; others are seeded-wrong (sensitivity)
     Bcrypt,     \* bcrypt with KDF support is installed (detected at run time)
     MaxBlocks,  \* scanner: maximal number of text blocks in a file
@@ -344,12 +344,81 @@ UnfoldOK ==
         ELSE st.comment = AllLines(c, CHOOSE h \in cs : TRUE)
 
 -----------------------------------------------------------------------------
+(* Part "keylist": loading an ordered LIST of keys (load_keypairs and the   *)
+(* client_keys= option; load_public_keys / load_certificates).  The loader  *)
+(* walks the entries in order; for an encrypted key file with a .pub or     *)
+(* -cert.pub sibling and a CALLABLE passphrase the decryption is deferred   *)
+(* until the first sign() and remembered in a local (`enc').  Rule: what    *)
+(* comes out for entry i is a function of entry i ALONE.                    *)
+
+KLKinds == {"path", "path_pub", "path_cert", "enc", "enc_pub", "enc_cert", "bytes",
+            "encbytes", "obj", "tuple", "pathtuple", "pair"}
+PubKinds2 == {"ppath", "pbytes", "pobj"}
+CertKinds2 == {"cpath", "cbytes", "cobj"}
+\* passphrase argument: none, the right string, a wrong string, a callable
+\* returning the right / a wrong passphrase
+KLModes == {"none", "string", "wrong", "callable", "callable_wrong"}
+
+KLCases ==
+    [api : {"keypairs"}, entries : SeqsUpTo(KLKinds, MaxBlocks) \ {<<>>}, mode : KLModes]
+      \cup
+    [api : {"public"}, entries : SeqsUpTo(PubKinds2, MaxBlocks) \ {<<>>}, mode : {"none"}]
+      \cup
+    [api : {"certs"}, entries : SeqsUpTo(CertKinds2, MaxBlocks) \ {<<>>}, mode : {"none"}]
+
+KLEnc(k)      == k \in {"enc", "enc_pub", "enc_cert", "encbytes"}
+KLHasCert(k)  == k \in {"path_cert", "enc_cert", "tuple", "pathtuple"} \/ k \in CertKinds2
+\* decryption deferred to the first sign()
+KLDeferred(k, m) == m \in {"callable", "callable_wrong"} /\ k \in {"enc_pub", "enc_cert"}
+\* loading the entry fails (KeyImportError): no / wrong passphrase needed now
+KLFails(k, m) == KLEnc(k) /\ ~KLDeferred(k, m) /\ m \in {"none", "wrong", "callable_wrong"}
+
+KLPairs(i, k, pend) ==
+    IF KLHasCert(k) /\ k \notin CertKinds2
+    THEN <<[e |-> i, cert |-> TRUE, pend |-> pend], [e |-> i, cert |-> FALSE, pend |-> pend]>>
+    ELSE <<[e |-> i, cert |-> KLHasCert(k), pend |-> pend]>>
+
+\* declarative: every entry on its own
+RECURSIVE KLExpect(_, _)
+KLExpect(k, i) ==
+    IF i > Len(k.entries) THEN [err |-> 0, out |-> <<>>]
+    ELSE IF KLFails(k.entries[i], k.mode) THEN [err |-> i, out |-> <<>>]
+    ELSE LET rest == KLExpect(k, i + 1)
+             mine == KLPairs(i, k.entries[i],
+                             IF KLDeferred(k.entries[i], k.mode) THEN i ELSE 0)
+         IN IF rest.err # 0 THEN rest ELSE [err |-> 0, out |-> mine \o rest.out]
+
+KLInitSt == [i |-> 1, enc |-> 0, out |-> <<>>, err |-> 0]
+
+KLStep(k, s) ==         \* one iteration of `for key_to_load in keys_to_load'
+    LET kind == k.entries[s.i]
+        enc0 == IF Variant = "CarryEncKey" THEN s.enc ELSE 0   \* the local is reset per entry
+        enc1 == IF KLDeferred(kind, k.mode) THEN s.i ELSE enc0
+    IN IF KLFails(kind, k.mode)
+       THEN [s EXCEPT !.err = s.i, !.i = Len(k.entries) + 1]
+       ELSE [s EXCEPT !.i = s.i + 1, !.enc = enc1,
+                      \* an SSHKeyPair entry is passed through untouched
+                      !.out = s.out \o KLPairs(s.i, kind, IF kind = "pair" THEN 0 ELSE enc1)]
+
+KLDone(k, s) == s.i > Len(k.entries)
+
+\* the loader's output is the entry-by-entry expectation
+ListEquiv ==
+    (Part = "keylist" /\ pc = "done") =>
+        LET e == KLExpect(c, 1) IN
+        st.err = e.err /\ (e.err = 0 => st.out = e.out)
+\* a pair never waits for the decryption of ANOTHER entry's file
+Independence ==
+    Part = "keylist" => \A n \in DOMAIN st.out : st.out[n].pend \in {0, st.out[n].e}
+
+-----------------------------------------------------------------------------
 Cases == CASE Part = "priv"     -> PrivCases
            [] Part = "pub"      -> PubCases
            [] Part = "scanpriv" -> ScanPrivCases
            [] Part = "scanpub"  -> ScanPubCases
            [] Part = "chain"    -> ChainCases
            [] Part = "layout"   -> LayoutCases
+           [] Part = "keylist"  -> KLCases
 
 Init ==
     /\ c \in Cases
@@ -358,6 +427,7 @@ Init ==
     /\ st = CASE Part \in {"scanpriv", "scanpub"} -> ScanInit
               [] Part = "chain" -> ChainInitSt
               [] Part = "layout" -> LayoutInitSt
+              [] Part = "keylist" -> KLInitSt
               [] OTHER -> [export |-> "pending", import |-> "pending"]
 
 TableStep ==
@@ -379,6 +449,11 @@ ChainStepAct ==
     \/ \E t \in ChainNextSts(c, st) : st' = t /\ pc' = "run" /\ res' = res
     \/ /\ ChainNextSts(c, st) = {} /\ pc' = "done" /\ res' = "ok" /\ st' = st
 
+KLStepAct ==
+    IF KLDone(c, st)
+    THEN /\ pc' = "done" /\ res' = (IF st.err = 0 THEN "ok" ELSE "KeyImportError") /\ st' = st
+    ELSE /\ st' = KLStep(c, st) /\ pc' = "run" /\ res' = res
+
 LayoutStepAct ==
     IF LayoutDone(c, st)
     THEN /\ pc' = "done" /\ res' = "ok" /\ st' = st
@@ -390,6 +465,7 @@ Next ==
          [] Part \in {"scanpriv", "scanpub"} -> ScanStepAct
          [] Part = "chain" -> ChainStepAct
          [] Part = "layout" -> LayoutStepAct
+         [] Part = "keylist" -> KLStepAct
 
 Spec == Init /\ [][Next]_vars
 
@@ -447,5 +523,6 @@ EmitRows ==
         PrintT(ToString(CASE Part \in {"priv", "pub"} -> <<c, st.export, st.import>>
                           [] Part \in {"scanpriv", "scanpub"} -> <<c, st.err, st.keys>>
                           [] Part = "chain" -> <<c, st.hist, st.priv>>
-                          [] Part = "layout" -> <<c, res, st.comment>>))
+                          [] Part = "layout" -> <<c, res, st.comment>>
+                          [] Part = "keylist" -> <<c, st.err, st.out>>))
 =============================================================================
